@@ -26,7 +26,7 @@ def known_class(fmt, ch, text, cat, script=None, line=None):
     if fmt.codec == 0x21 and (script is None or _odd_count_before(script, line)):
         return "KF-VOX-ODD"
     # RAW/DWVW has no header: the frame count is an estimate from the file length
-    if fmt.major == 0x04 and fmt.codec in (0x40, 0x41, 0x42) and cat in ("short", "eof", "data", "count", "position", "frames"):
+    if fmt.major == 0x04 and fmt.codec in (0x40, 0x41, 0x42) and cat in ("eof", "frames"):
         return "KF-RAW-DWVW-FRAMES"
     return None
 
